@@ -142,7 +142,7 @@ func runChildren(r *vlib.Run, bin, entry string, total, batch int, perChildTimeo
 		prog := filepath.Join(tmp, fmt.Sprintf("progress.%d", b))
 		args := append([]string{"--child", entry, r.Tier, strconv.FormatInt(r.Seed, 10), strconv.Itoa(from), strconv.Itoa(to), prog}, extra...)
 		cmd := exec.Command(exe, args...)
-		cmd.Env = append(os.Environ(), "GORACE=halt_on_error=1 exitcode=66", "GOTRACEBACK=all")
+		cmd.Env = append(os.Environ(), "GORACE=halt_on_error=1 exitcode=66 atexit_sleep_ms=0", "GOTRACEBACK=all")
 		var stdout, stderr bytes.Buffer
 		cmd.Stdout, cmd.Stderr = &stdout, &stderr
 		if err := cmd.Start(); err != nil {
